@@ -367,7 +367,20 @@ def call_form(rng, nodes, i, t, p_hidden):
 
 
 def new_call(rng, nodes, i, t, p_hidden):
-    return {"t": t, "form": call_form(rng, nodes, i, t, p_hidden)}
+    c = {"t": t, "form": call_form(rng, nodes, i, t, p_hidden)}
+    if c["form"] == "hidden" and (i + t) % 2:  # (no draw) the callee is looked up in a registry of the module instead
+        c["via"] = "reg"
+    return c
+
+
+def registry(prog, mod):
+    """Names of the memento functions that the module's registry of handlers holds."""
+    return sorted({prog["nodes"][c["t"]]["name"] for nd in prog["nodes"] if nd["mod"] == mod
+                   for c in nd["calls"] if c["form"] == "hidden" and c.get("via") == "reg"})
+
+
+def registry_statement(prog, mod):
+    return "HANDLERS = {%s}\n" % ", ".join("%r: %s" % (n, n) for n in registry(prog, mod))
 
 
 def read_form(rng, nd, var):
@@ -443,6 +456,8 @@ def call_expr(prog, nd, c, arg="x"):
         return "%s(%s)" % (c["alias"], arg)
     if c["form"] == "old":  # the earlier definition of the helper, through the name that still refers to it
         return "%s_old(%s)" % (t["name"], arg)
+    if c.get("via") == "reg":  # hidden dynamic call through a module-level dictionary that holds the functions
+        return "HANDLERS[\"%s\"](%s)" % (t["name"], arg)
     return "globals()[\"%s\"](%s)" % (t["name"], arg)  # hidden dynamic call
 
 
@@ -662,6 +677,8 @@ def render_module(prog, mod, twin=False, order=None, skip=()):
                 continue
             parts.append("%s = %s%s\n" % (al["name"], prog["nodes"][al["target"]]["name"],
                                           ".force_local()" if al.get("clone") else ""))  # (a module-level modifier clone)
+    if registry(prog, mod):
+        parts.append(registry_statement(prog, mod))
     return "".join(parts)
 
 
@@ -724,6 +741,9 @@ def cell_statements(old, new, desc, twin=False):
                 or al.get("pclone") is not None):
             out.append((al["mod"], "%s = %s%s\n" % (al["name"], new["nodes"][al["target"]]["name"],
                                                    ".partial(%d)" % al["pclone"] if al.get("pclone") is not None else ""), al["name"]))
+    for mod in MODS:  # a registry is filled again when its content is re-defined or changes
+        if registry(new, mod) and (registry(new, mod) != registry(old, mod) or any(n in registry(new, mod) for (mm, n) in redefined if mm == mod)):
+            out.append((mod, registry_statement(new, mod), "alias_HANDLERS"))
     if desc.get("var") is not None:
         v = new["vars"][desc["var"]]
         if desc["kind"] == "var_mutate":
